@@ -578,6 +578,10 @@ pub fn run_sizes(e: &Engine, rec: &Recorder) {
                     let mut v2 = v;
                     v2[n - 1] = Doc::Bool(true);
                     payloads.push(Doc::Seq(v2));
+                    // every element faulty (as many reports as elements), pairwise distinct
+                    if n <= 4097 {
+                        payloads.push(Doc::Seq((0..n).map(|i| Doc::Float(i as f64 + 0.5)).collect()));
+                    }
                 }
             }
             for doc in payloads {
